@@ -36,6 +36,8 @@ func presetFor(c *Ctx, id string, i int) *HistOpts {
 	w := o.Gen.W
 	switch id {
 	case "C04":
+		o.Gen.EVM, o.UseRef = true, true // the quantifier covers native and contract transactions
+		w["deploy"], w["call"], w["xfer2contract"] = 5, 25, 8
 		w["replay"] = 25
 		w["transfer"] = 40
 		o.Gen.InvalidPct = 35
@@ -49,9 +51,11 @@ func presetFor(c *Ctx, id string, i int) *HistOpts {
 		o.Gen.NVal = 2 + rng.Intn(5)
 		o.Params.MaxValidatorCnt = int64(1 + rng.Intn(5))
 	case "C12":
+		o.RestartPermille = 100 // unbonding spans restarts
 		w["stake"], w["delegate"], w["unstake"] = 20, 20, 40
 		o.Blocks = 50
 	case "C13":
+		o.RestartPermille = 60
 		w["withdraw"] = 30
 		w["stake"], w["delegate"], w["unstake"] = 15, 15, 10
 		o.Gen.Absent = 250
@@ -72,6 +76,8 @@ func presetFor(c *Ctx, id string, i int) *HistOpts {
 		o.Gen.MaxTx = 12
 		o.Gen.Evidence, o.Gen.Absent = 0, 0
 	case "C16":
+		o.Gen.EVM, o.UseRef = true, true
+		w["deploy"], w["call"], w["xfer2contract"] = 5, 20, 6
 		o.Gen.InvalidPct = 40
 		w["proposal"], w["vote"] = 10, 25
 	}
